@@ -12,7 +12,7 @@ import (
 // wedgeIsViolation says whether a wedge is this property's business.
 func baseOutcome(t *testing.T, p *Plan, wedgeIsViolation bool) (*RunResult, *Outcome) {
 	res := Execute(t, p)
-	out := &Outcome{Stats: res.Stats, SchedHash: res.SchedHash, Infra: res.Infra, Events: res.EvLog}
+	out := &Outcome{Stats: res.Stats, SchedHash: res.SchedHash, Infra: res.Infra, Events: res.EvLog, Hung: res.Hung}
 	if out.Stats.Fired == nil {
 		out.Stats = newStats()
 	}
@@ -135,6 +135,30 @@ func oracleC01(res *RunResult) []Violation {
 			prev = cur
 		}
 	}
+	// the checkpoints handed out as accepted, in the order the calls returned (meaningful when one operation is in flight at a time)
+	if res.Plan.Cfg.Clients <= 1 {
+		handed := map[string]Stored{}
+		for _, r := range res.Hist {
+			if r.Op.K != "update" || r.Class != "accept" || r.Req == nil {
+				continue
+			}
+			ld := res.W.LogByID(r.Req.LogID)
+			if ld == nil {
+				continue
+			}
+			cur := parseStored(r.Out)
+			if cur.Bad {
+				continue
+			}
+			if prev, ok := handed[r.Req.LogID]; ok {
+				if ok2, why := res.W.Compatible(ld.Idx, prev.Size, prev.Root, cur.Size, cur.Root); !ok2 {
+					out = append(out, Violation{Class: why, Sig: why + "/handed_out", OpIdx: r.Idx,
+						Detail: fmt.Sprintf("log %d: the witness handed out a cosigned {%s} and later a cosigned {%s} (request: %s; faults hit: %v)", ld.Idx, cpBrief(prev), cpBrief(cur), r.Req.Desc, r.Fired)})
+				}
+			}
+			handed[r.Req.LogID] = cur
+		}
+	}
 	// what GetCheckpoint serves after each step must walk the same history
 	served := map[string]Stored{}
 	for _, r := range res.Hist {
@@ -210,20 +234,30 @@ func init() {
 	register(&Scenario{
 		Prop:  "C01",
 		Level: "exploration",
-		Rule: "seeded histories of update requests (honest steps, forks of every branch, wrong old sizes, forged/truncated/padded/replayed proofs, byte-level forgeries) on the real witness over in-memory and SQLite stores, in three batches by run number: sequential fault-free, concurrent under the seeded scheduler (2-4 clients), sequential with fail-stop storage faults; a case is non-trivial if some log had >= 2 accepted checkpoints (so the append-only oracle compared at least one pair); distinct = distinct abstract histories (per op: log, size relation, old selector, proof kind, mutation, verdict, faults hit)",
+		Rule:  "seeded histories of update requests (honest steps, forks of every branch, wrong old sizes, forged/truncated/padded/replayed proofs, byte-level forgeries) on the real witness over in-memory and SQLite stores, in four batches by run number: sequential fault-free, concurrent under the seeded scheduler (2-4 clients), sequential with fail-stop storage faults at the interface, and SQLite with faults inside the database driver; oracle on the commit sequence, on the sequence of checkpoints handed out as accepted, and on what is served after every step; a case is non-trivial if some log had >= 2 accepted checkpoints (so the append-only oracle compared at least one pair); distinct = distinct abstract histories (per op: log, size relation, old selector, proof kind, mutation, verdict, faults hit)",
 		Gen: func(r *Rng, tier string, n uint64) *Plan {
 			pf := c01Profile(r, tier)
 			p := &Plan{Scenario: "W"}
 			p.Cfg = genConfig(r, pf)
 			p.Cfg.ReadBack = true
 			p.Ops = genHistory(r, pf, &p.Cfg)
-			switch n % 3 {
+			switch n % 4 {
 			case 1:
 				// racing forks: make clients start from the same state
 				makeConcurrent(r, p)
 				p.Cfg.ReadBack = false
 			case 2:
 				addFaults(r, p, 0.06)
+			case 3:
+				// SQLite with faults inside the database driver (begin/query/exec/commit/rollback), one task parked at a time
+				p.Cfg.Store, p.Cfg.Seam, p.Cfg.Clients, p.Cfg.Strategy = "sqlite", "driver", 1, "uniform"
+				for occ := 0; occ < 2*len(p.Ops); occ++ {
+					for _, call := range []string{"drv.Begin", "drv.Query", "drv.Next", "drv.Exec", "drv.Commit", "drv.Rollback"} {
+						if r.Chance(0.05) {
+							p.Faults = append(p.Faults, Fault{At: fmt.Sprintf("c0:%s#%d", call, occ), Kind: "fail"})
+						}
+					}
+				}
 			}
 			return p
 		},
@@ -254,17 +288,17 @@ func init() {
 			out.Sample = histSample(p, res)
 			return out
 		},
-		Components: engineWComponents,
+		Components:  engineWComponents,
 		Assumptions: []string{"SHA-256 collision resistance (the harness never holds a valid proof between incompatible trees)", "harness reference tree/proof code is RFC 6962-correct (cross-checked against transparency-dev/merkle in selftest)", "process kill/power loss not modelled here (see C06)"},
 	})
 }
 
 var engineWComponents = map[string]string{
-	"internal/witness":                       "real",
-	"internal/persistence/inmemory":          "real",
+	"internal/witness":              "real",
+	"internal/persistence/inmemory": "real",
 	"internal/persistence/sql + database/sql + go-sqlite3 (file-backed, one connection)": "real",
 	"formats/log, formats/note, x/mod/sumdb/note, merkle/proof":                          "real",
-	"clock":    "synctest fake clock",
+	"clock":            "synctest fake clock",
 	"logs, submitters": "harness stubs over the reference tree",
 	"metrics backend":  "recording stub",
 }
@@ -339,7 +373,7 @@ func init() {
 	register(&Scenario{
 		Prop:  "C03",
 		Level: "exploration",
-		Rule:  "seeded histories (one operation in flight) reaching varied states, with refused requests of every class incl. fail-stop storage faults at WriteOps/GetLatest/Set/Close; a fault-free side handle on the underlying store snapshots every log and the log list around every update; non-trivial = the run contains at least one refused update whose before/after snapshots were compared; distinct = distinct (refusal class, state-before class, store) triples reached",
+		Rule:  "seeded histories (one operation in flight) reaching varied states, with refused requests of every class incl. fail-stop storage faults at WriteOps/GetLatest/Set/Close and, in a third batch, the caller's context ending while the update is at one of those calls; a fault-free side handle on the underlying store snapshots every log and the log list around every update; non-trivial = the run contains at least one refused update whose before/after snapshots were compared; distinct = distinct (refusal class, state-before class, store) triples reached",
 		Gen: func(r *Rng, tier string, n uint64) *Plan {
 			pf := Profile{MaxLogs: 3, ShareKeys: true, MinOps: 3, MaxOps: 12, Adversarial: 0.7, Mutations: 0.35, BigSizes: r.Chance(0.2)}
 			if tier == "thorough" {
@@ -349,8 +383,18 @@ func init() {
 			p.Cfg = genConfig(r, pf)
 			p.Cfg.Snap = true
 			p.Ops = genHistory(r, pf, &p.Cfg)
-			if n%2 == 1 {
+			switch n % 3 {
+			case 1:
 				addFaults(r, p, 0.08)
+			case 2:
+				// the caller's context ends while the update is at a storage call (client gone, deadline, shutdown)
+				for occ := 0; occ < len(p.Ops); occ++ {
+					for _, call := range []string{"WriteOps", "W.GetLatest", "W.Set", "W.Close"} {
+						if r.Chance(0.1) {
+							p.Faults = append(p.Faults, Fault{At: fmt.Sprintf("c0:%s#%d", call, occ), Kind: "cancelctx"})
+						}
+					}
+				}
 			}
 			return p
 		},
@@ -380,7 +424,7 @@ func init() {
 			out.Sample = histSample(p, res)
 			return out
 		},
-		Components: engineWComponents,
+		Components:  engineWComponents,
 		Assumptions: []string{"snapshots are taken through a second, fault-free handle on the same store (the store's own read path)", "injected storage faults are fail-stop: a failed Set is not applied"},
 	})
 }
@@ -411,7 +455,7 @@ func cubePlan(n uint64, pv uint64) *Plan {
 	stored, sub, old, diff, proof := cubeCase(n)
 	p := &Plan{Scenario: "W"}
 	p.Cfg = Config{Store: "mem", Seam: "none", Clients: 1, Dense: 64, WitKeys: []string{"ed:0", "cosig:0"},
-		Logs: []LogCfg{{Origin: "sim.example/cube", Key: 0, Forks: []ForkCfg{{Parent: 0, At: 0}}}},
+		Logs:  []LogCfg{{Origin: "sim.example/cube", Key: 0, Forks: []ForkCfg{{Parent: 0, At: 0}}}},
 		Extra: map[string]int64{"cube": int64(n)}}
 	if stored >= 0 {
 		p.Ops = append(p.Ops, Op{K: "update", L: 0, Sz: "abs", D: uint64(stored), Old: "zero", P: "empty"})
@@ -480,7 +524,7 @@ func init() {
 	register(&Scenario{
 		Prop:  "C09",
 		Level: "exploration",
-		Rule:  "refinement against the sequential decision-table model, operation by operation (sequential, fault-free: the schedule/fault dimensions are inert here by design). thorough: every case of the cube {nothing stored, stored size 0..17} x submitted 0..17 x old 0..17 x {same root, different root} x {empty, correct, correct-for-other-sizes, flipped, dropped, added, random proof} on a fresh witness, then seeded histories with sizes to 2^63 and old sizes to 2^64-1; quick: a seeded sample of the cube interleaved with seeded histories; non-trivial = the model constrains the verdict (not one of the three open cells); distinct = distinct (state class, verdict, proof kind, old relation) cells reached",
+		Rule:  "refinement against the sequential decision-table model, operation by operation (sequential; three quarters of the runs fault-free, one quarter with fail-stop storage faults where the faulted operations themselves are not judged but every later one is, against the last committed state). thorough: every case of the cube {nothing stored, stored size 0..17} x submitted 0..17 x old 0..17 x {same root, different root} x {empty, correct, correct-for-other-sizes, flipped, dropped, added, random proof} on a fresh witness, then seeded histories with sizes to 2^63 and old sizes to 2^64-1; quick: a seeded sample of the cube interleaved with seeded histories; non-trivial = the model constrains the verdict (not one of the three open cells); distinct = distinct (state class, verdict, proof kind, old relation) cells reached",
 		Total: c09Total,
 		Gen: func(r *Rng, tier string, n uint64) *Plan {
 			if tier == "thorough" && n < cubeTotal {
@@ -493,6 +537,13 @@ func init() {
 			p := &Plan{Scenario: "W"}
 			p.Cfg = genConfig(r, pf)
 			p.Ops = genHistory(r, pf, &p.Cfg)
+			if n%4 == 3 {
+				// the rule order must also hold for the requests that FOLLOW a storage failure: operations hit by an
+				// injected fault are not judged, everything after them is, against the last committed state
+				pf.Adversarial, pf.Mutations = 0.35, 0.05
+				p.Ops = genHistory(r, pf, &p.Cfg)
+				addFaults(r, p, 0.12)
+			}
 			return p
 		},
 		Run: func(t *testing.T, p *Plan) *Outcome {
@@ -533,7 +584,7 @@ func init() {
 			out.Sample = histSample(p, res)
 			return out
 		},
-		Components: engineWComponents,
+		Components:  engineWComponents,
 		Assumptions: []string{"the model is the rule list of property C09 / c2sp.org/tlog-witness; its proof verdict is the RFC 9162 2.1.4.2 algorithm written in the harness", "three cells are left open as the property states: first use with non-zero old size or non-empty proof; stored size 0 < submitted size (C08); size 0 with non-empty proof (refusal required, identity open)"},
 	})
 }
@@ -649,7 +700,7 @@ func init() {
 			out.Sample = histSample(p, res)
 			return out
 		},
-		Components: engineWComponents,
+		Components:  engineWComponents,
 		Assumptions: []string{"outcomes are classified from the sentinel errors Update returns; counters are compared against those actual outcomes, per run (deltas of a process-wide recording factory)"},
 	})
 }
